@@ -48,6 +48,10 @@ fn fwd(op: &Op, _ctx: &dyn Context, operands: &mut dyn CoordinateSet) -> usize {
 
             let easting = x_0 + rho * sin_lon;
             let northing = y_0 + sign * rho * cos_lon;
+            if easting.is_nan() || northing.is_nan() {
+                operands.set_xy(i, f64::NAN, f64::NAN);
+                continue;
+            }
             operands.set_xy(i, easting, northing);
             successes += 1;
         }
@@ -72,6 +76,11 @@ fn fwd(op: &Op, _ctx: &dyn Context, operands: &mut dyn CoordinateSet) -> usize {
 
         let easting = x_0 + (b * d) * (cos_xi * sin_lon);
         let northing = y_0 + (b / d) * (cos_xi_0 * sin_xi - sin_xi_0 * cos_xi * cos_lon);
+        // The point opposite the projection centre (and NaN input) cannot be projected
+        if easting.is_nan() || northing.is_nan() {
+            operands.set_xy(i, f64::NAN, f64::NAN);
+            continue;
+        }
         operands.set_xy(i, easting, northing);
         successes += 1;
     }
